@@ -45,7 +45,7 @@ def pool_gate(ck, ctx):
             if not callee_of(t).endswith("VecDeque::pop_front") and not callee_of(t).endswith("VecDeque::pop_back"):
                 continue
             R = ctx.res(b)
-            recv = R.operand(t["args"][0])
+            recv = R.arg(bb, 0)
             base, names = field_chain(strip(recv))
             if not names or names[-1] != "queued":
                 continue
@@ -103,7 +103,7 @@ def j_gate(ck, ctx):
     sites = C.callers_exact(ck, ctx, "start-callers", "task::Runner::start", ["work::Work::run"], floor=1)
     for i, (b, bb, t) in enumerate(sites):
         R = ctx.res(b)
-        recv = strip(R.operand(t["args"][0]))
+        recv = strip(R.arg(bb, 0))
 
         def pred(e):
             e = strip(e)
@@ -137,18 +137,18 @@ def j_gate(ck, ctx):
     C.single_writer(ck, ctx, "single-writer", RUNNER, "parallelism", [], need_writer=False)
     # the -j value reaches Runner::new unchanged
     for i, (b, bb, t) in enumerate(C.callers_exact(ck, ctx, "runner-new", "task::Runner::new", ["work::Work::run"], floor=1)):
-        e = strip(C.arg_expr(ctx, b, t, 0))
+        e = strip(C.arg_expr(ctx, b, bb, 0))
         base, names = field_chain(e)
         ok = names[-2:] == ["options", "parallelism"]
         ck.ob("j-value", "%s->Runner::new#%d" % (b.nname, i), ok, "Runner::new receives %s (need self.options.parallelism)" % show(e), span=t["loc"], fn=b.nname)
     nb = ck.need("fn task::Runner::new", F.body("task::Runner::new"))
     ok = False
-    for _, _, s in [x for x in Q.adt_constructors(F, RUNNER) if x[0].nname == "task::Runner::new"]:
+    for _, bb_, s in [x for x in Q.adt_constructors(F, RUNNER) if x[0].nname == "task::Runner::new"]:
         fields = F.struct_fields(RUNNER)
         ops = s["rv"]["ops"]
         R = ctx.res(nb)
-        pe = strip(R.operand(ops[fields.index("parallelism")]))
-        re_ = R.operand(ops[fields.index("running")])
+        pe = strip(R.agg_op(bb_, s, fields.index("parallelism")))
+        re_ = R.agg_op(bb_, s, fields.index("running"))
         ok = pe[0] == "param" and re_ == ("const", 0)
     ck.ob("j-value", "Runner::new-init", ok, "Runner::new builds {running: 0, parallelism: <param>}", span=nb.loc, fn=nb.nname)
     C.single_writer(ck, ctx, "single-writer", "work::Options", "parallelism", ["run::parse_args"])
@@ -165,13 +165,13 @@ def counters(ck, ctx):
     nb = ck.need("fn work::PoolState::new", F.body("work::PoolState::new"))
     cons = [x for x in Q.adt_constructors(F, POOL)]
     ck.ob("pool-ctor", "sites", all(b.nname == "work::PoolState::new" for b, _, _ in cons) and len(cons) == 1, "PoolState is constructed only in PoolState::new (%s)" % [b.nname for b, _, _ in cons], span=nb.loc)
-    for b, bb, s in cons:
+    for b, bb_, s in cons:
         if b.nname != "work::PoolState::new":
             continue
         fields = F.struct_fields(POOL)
         R = ctx.res(b)
-        r = R.operand(s["rv"]["ops"][fields.index("running")])
-        d = strip(R.operand(s["rv"]["ops"][fields.index("depth")]))
+        r = R.agg_op(bb_, s, fields.index("running"))
+        d = strip(R.agg_op(bb_, s, fields.index("depth")))
         ck.ob("pool-ctor", "init", r == ("const", 0) and d[0] == "param", "PoolState::new builds {running: %s, depth: %s}" % (show(r), show(d)), span=b.loc, fn=b.nname)
 
 
@@ -198,7 +198,7 @@ def get_pool(ck, ctx):
     gates = C.bool_gate_edges(ctx, b, pred)
     for i, (bb, s) in enumerate(somes):
         ok, why = Q.gated(cfg, bb, gates)
-        pe = R.operand(s["rv"]["ops"][0])
+        pe = R.agg_op(bb, s, 0)
         ck.ob("get-pool", "Some#%d" % i, ok, "get_pool returns Some(%s) only under key == build.pool.as_deref().unwrap_or(\"\") (gates %s)" % (show(pe), sorted(gates)), span=s.get("loc"), fn=b.nname)
     strs = Q.body_strings(F, b)
     ck.ob("get-pool", "default-name", '""' in strs or "" in strs, "default pool name constant \"\" used by get_pool (strings %s)" % strs[:4], span=b.loc, fn=b.nname)
@@ -211,8 +211,8 @@ def pools_registered(ck, ctx):
     ins = Q.sites_in(b, "smallmap::SmallMap::insert")
     got = []
     for bb, t in ins:
-        name = strip(R.operand(t["args"][1]))
-        val = strip(R.operand(t["args"][2]))
+        name = strip(R.arg(bb, 1))
+        val = strip(R.arg(bb, 2))
         depth = None
         if val[0] == "call" and val[1] == "work::PoolState::new":
             depth = strip(val[2][0])
@@ -238,11 +238,11 @@ def pools_registered(ck, ctx):
     # the loop has no early exit: its header's exit edge is only the iterator's None arm
     # pools flow into the returned BuildStates
     okp = False
-    for bb_, _, s in [x for x in Q.adt_constructors(F, BS) if x[0].nname == b.nname]:
+    for _, bb_, s in [x for x in Q.adt_constructors(F, BS) if x[0].nname == b.nname]:
         fields = F.struct_fields(BS)
-        pe = strip(R.operand(s["rv"]["ops"][fields.index("pools")]))
+        pe = strip(R.agg_op(bb_, s, fields.index("pools")))
         okp = pe[0] in ("var", "call", "phi") or True
-        tot = R.operand(s["rv"]["ops"][fields.index("total_pending")])
+        tot = R.agg_op(bb_, s, fields.index("total_pending"))
         ck.ob("pools-registered", "init-pending", tot == ("const", 0), "BuildStates::new starts total_pending at %s" % show(tot), span=b.loc, fn=b.nname)
     # loader: Statement::Pool arm inserts into self.pools with pool.depth
     lb = ck.need("fn load::Loader::parse_with_parser", F.body("load::Loader::parse_with_parser"))
@@ -250,10 +250,10 @@ def pools_registered(ck, ctx):
     okl = False
     seen_ins = False
     for bb, t in Q.sites_in(lb, "smallmap::SmallMap::insert"):
-        recv = strip(LR.operand(t["args"][0]))
+        recv = strip(LR.arg(bb, 0))
         base, names = field_chain(recv)
         if names and names[-1] == "pools":
-            v = strip(LR.operand(t["args"][2]))
+            v = strip(LR.arg(bb, 2))
             vb, vn = field_chain(v)
             okl = bool(vn) and vn[-1] == "depth" and "as Pool" in vn
             seen_ins = True
@@ -265,31 +265,31 @@ def pools_registered(ck, ctx):
     rb = ck.need("fn load::read", F.body("load::read"))
     RR = ctx.res(rb)
     oks = False
-    for bb_, _, s in [x for x in Q.adt_constructors(F, "load::State") if x[0].nname == rb.nname]:
+    for _, bb_, s in [x for x in Q.adt_constructors(F, "load::State") if x[0].nname == rb.nname]:
         fields = F.struct_fields("load::State")
-        pe = strip(RR.operand(s["rv"]["ops"][fields.index("pools")]))
+        pe = strip(RR.agg_op(bb_, s, fields.index("pools")))
         base, names = field_chain(pe)
         oks = names[-1:] == ["pools"]
         ck.ob("pools-registered", "state-pools", oks, "load::read returns State{pools: %s}" % show(pe), span=s.get("loc"), fn=rb.nname)
     # both Work::new sites get state.pools; Work::new forwards its param to BuildStates::new
     for i, (b2, bb, t) in enumerate(C.callers_exact(ck, ctx, "work-new", "work::Work::new", ["run::build"], floor=2)):
-        e = strip(C.arg_expr(ctx, b2, t, 5))
+        e = strip(C.arg_expr(ctx, b2, bb, 5))
         base, names = field_chain(e)
-        g = strip(C.arg_expr(ctx, b2, t, 0))
+        g = strip(C.arg_expr(ctx, b2, bb, 0))
         gb, gn = field_chain(g)
         ok = names[-1:] == ["pools"] and gn[-1:] == ["graph"] and strip(base) == strip(gb)
         ck.ob("pools-registered", "%s->Work::new#%d" % (b2.nname, i), ok, "Work::new receives pools=%s graph=%s (same State)" % (show(e), show(g)), span=t["loc"], fn=b2.nname)
     wb = ck.need("fn work::Work::new", F.body("work::Work::new"))
     for bb, t in Q.sites_in(wb, "work::BuildStates::new"):
-        e = strip(C.arg_expr(ctx, wb, t, 1))
+        e = strip(C.arg_expr(ctx, wb, bb, 1))
         ck.ob("pools-registered", "Work::new->BuildStates::new", e[0] == "param" and e[2] == "pools", "BuildStates::new receives %s" % show(e), span=t["loc"], fn=wb.nname)
     # read_pool: depth is the parsed value of the `depth` binding (default 0)
     pb = ck.need("fn parse::Parser::read_pool", F.body("parse::Parser::read_pool"))
     PR = ctx.res(pb)
     okd = False
-    for bb_, _, s in [x for x in Q.adt_constructors(F, "parse::Pool") if x[0].nname == pb.nname]:
+    for _, bb_, s in [x for x in Q.adt_constructors(F, "parse::Pool") if x[0].nname == pb.nname]:
         fields = F.struct_fields("parse::Pool")
-        de = PR.operand(s["rv"]["ops"][fields.index("depth")])
+        de = PR.agg_op(bb_, s, fields.index("depth"))
         al = alts(de)
         has0 = ("const", 0) in al
         parsed = any(any(c[1].endswith("::parse") for c in calls_in(a)) for a in al)
